@@ -489,6 +489,10 @@ func objectClone(in *object, out *object, clone *cloner) *object {
 		}
 	case argumentsObject:
 		out.value = value.clone(clone)
+	case *goSliceObject:
+		// The wrapper holds the slice header, which push and length replace.
+		wrapper := *value
+		out.value = &wrapper
 	}
 
 	return out
